@@ -10,10 +10,14 @@ BUILT = {
          "The step from expression text to the AST is covered by the parser theorems of C03/C04 and by this check's correspondence run (Go AST = specification's compile on every generated tree)."),
  "C02": ("Theorems: interpreter = eval on all projection forms for every object iteration order; characterisation of the five projection forms; object-wildcard content independent of iteration order (Permutation).",
          "Projection scope (where a right-hand side ends) is a parser statement: C03."),
+ "C05": ("Theorems: the lexer on any bytes returns (tokens ending in the only EOF, positions in range) and never panics; the parser's cursor never leaves the token list and fuel 2*tokens+2 suffices; whatever compiles is the AST of an expression tree; Search on any bytes and any data returns a value or an error, never a panic. All unchecked Go operations are kept unchecked in the model.",
+         "PARTIAL by nature: real time, memory and stack depth are runtime facts outside the model; the harness runs long inputs (to 64 KiB) on the library only and every case under a crash/hang watchdog."),
  "C07": ("Theorems: isFalse = the five-case truth definition; ||, &&, ! return/short-circuit as specified, also when the unused operand would fail; == != deep equality, never across types; ordering comparators on two numbers else null.",
          "Exhaustive value-universe pairs are run through library, model and specification."),
  "C08": ("Theorems: the slice node (capSlice, computeSliceParams, the loops with 64-bit wrap-around and unchecked slice[i]) equals Python extended slicing for every array shorter than 2^63 and all int64 start/stop/step; step 0 is an error on arrays; non-arrays give null; never a panic or fuel exhaustion.",
          "Exhaustive windows for small lengths and boundary values are run through library, model and specification."),
+ "C17": ("Theorems: Compile returns exactly one of (expression, error) on every byte string; a syntax error's offset lies in [0, len]; the caret rendering has the stated form and strings.Repeat is never called with a negative count; MustCompile panics exactly when Compile fails.",
+         "Exact offsets are compared between library and model on generated inputs; the error message text is not modelled."),
  "C10": ("Theorems: the dispatcher of functions.go (regenerated table, resolveArgs/typeCheck, 26 handlers with unchecked assertions) equals the specification's call for every name and argument list; ill-typed / wrong arity / unknown => error; inconsistent by-keys => error at any length; evaluation never panics.",
          "The full name x arity x universe matrix is run through library, model and specification."),
 }
